@@ -1,6 +1,7 @@
 package rules
 
 import (
+	"regexp"
 	"os"
 	"go/token"
 	"go/types"
@@ -188,6 +189,16 @@ func c01Panics(c *Ctx) {
 					continue
 				}
 				r.OK("bounds", key, p.Pos(o.pos), "audited: "+boundsAudit[key])
+			case bareAudit(key) != "":
+				// the same function written as a method / as a plain function: same audited code
+				bk := bareAudit(key)
+				audited++
+				usedAudit[bk] = true
+				if want, ok := auditFP[bk]; ok && want != o.fp {
+					r.Violate("bounds", key, p.Pos(o.pos), "this expression is in the audited table (as "+bk+"), but the values it uses are now computed differently from when it was read (fingerprint "+o.fp+", audited "+want+"): the audit no longer applies; "+o.reason)
+					continue
+				}
+				r.OK("bounds", key, p.Pos(o.pos), "audited (as "+bk+"): "+boundsAudit[bk])
 			case movedAudit(fn, o.expr) != "":
 				audited++
 				r.OK("bounds", key, p.Pos(o.pos), movedAudit(fn, o.expr))
@@ -335,4 +346,22 @@ func auditDump(key, fp string) {
 			_ = f.Close()
 		}
 	}
+}
+
+var bareKeyRe = regexp.MustCompile(`^\(\*?(\w+)\.\w+\)\.(\w+)\|`)
+
+// bareKeyOf: "(*pkg.T).name|expr" and "pkg.name|expr" name the same code when a method is turned into a function or back.
+func bareKeyOf(k string) string {
+	return bareKeyRe.ReplaceAllString(k, "$1.$2|")
+}
+
+// bareAudit: the audited key that names the same function (method or plain) and expression, if any.
+func bareAudit(key string) string {
+	want := bareKeyOf(key)
+	for k := range boundsAudit {
+		if k != key && bareKeyOf(k) == want {
+			return k
+		}
+	}
+	return ""
 }
